@@ -145,6 +145,7 @@ func (l Layout) key(keys []int, i int) int {
 type (
 	Name string
 	Ref  string // symbolic id of an indirect object
+	NRef struct{ Num, Gen int } // numeric indirect reference (raw writer)
 	Int  int64
 	Real float64
 	Str  struct {
